@@ -423,6 +423,7 @@ func main() {
 				}
 			}
 			if r.Violations() == 0 {
+				vk.ReplayRan()
 				fmt.Println("replay: no violation reproduced in 30 attempts")
 			}
 		}
